@@ -1,5 +1,115 @@
 import Ptn.C08.Model
-/-! Line-protocol handler for the C08 model (core Lean only). -/
+/-! Line-protocol handler for the C08 model (core Lean only).
+
+  splitting <b1,b2:g:a1,…> …        → operator identifiers in the order of `exponentiateSplitting`
+                                       (one token per Trotter step: swaps before `:` gate `:` swaps after)
+  swap <d>                           → `<rows>;i,j i,j …` positions of the ones of `swapGate d`
+                                       (row by row); `error` for `d = 0` (positivity_check raises)
+  twosite <p|c> <P> <C> <pp|-> <kidsP> <kidsC|-> <oP> <oC>
+                                     → the pair P (parent) / C (child), P's parent, both child lists, the
+                                       numbers of open legs; `p`: the operator names P first, `c`: C first.
+                                       `s1=…;s2=…;contr=…;abs=…;bind=…;n1=…;n2=…` (see `showResult`);
+                                       `error` when the model raises
+  seq <id:parent:kids> … / <a-b> …  → the tree after two-site gates on the pairs, same encoding
+-/
 namespace Ptn.C08
-def handle (args : List String) : String := "bad-op"
+
+def parseNatList (s : String) : Option (List Nat) :=
+  if s = "" ∨ s = "-" then some [] else (s.splitOn ",").mapM String.toNat?
+
+def parseOptNat (s : String) : Option (Option Nat) :=
+  if s = "-" then some none else s.toNat?.map some
+
+def showNats (l : List Nat) : String :=
+  if l.isEmpty then "-" else ",".intercalate (l.map toString)
+
+def showOpt : Option Nat → String
+  | none => "-"
+  | some x => toString x
+
+def showLeg : Leg → String
+  | .nb id => s!"v{id}"
+  | .phys n k => s!"o{n}.{k}"
+  | .gout k => s!"g{k}"
+  | .gin k => s!"i{k}"
+  | .bond => "b"
+
+def showLegs (l : List Leg) : String :=
+  if l.isEmpty then "-" else ",".intercalate (l.map showLeg)
+
+def showSpec (s : LegSpec) : String :=
+  s!"{showOpt s.parentLeg}|{showNats s.childLegs}|{showNats s.openLegs}|{if s.isRoot then "1" else "0"}"
+
+def showNode (n : MNode) : String :=
+  s!"{showOpt n.parent}|{showNats n.children}|{showLegs n.legs}"
+
+def showBinds (b : List (Leg × Leg)) : String :=
+  if b.isEmpty then "-" else ",".intercalate (b.map fun (x, y) => s!"{showLeg x}~{showLeg y}")
+
+def showResult (r : TwoSiteResult) : String :=
+  s!"s1={showSpec r.spec1};s2={showSpec r.spec2};contr={showNode r.contr};abs={showLegs r.absorbed.legs};" ++
+  s!"bind={showBinds r.binds};n1={showNode r.node1};n2={showNode r.node2}"
+
+def parseStep (tok : String) : Option (TStep Nat) :=
+  match tok.splitOn ":" with
+  | [b, g, a] =>
+    match parseNatList b, g.toNat?, parseNatList a with
+    | some b, some g, some a => some ⟨b, g, a⟩
+    | _, _, _ => none
+  | _ => none
+
+def parseTNode (tok : String) : Option TNode :=
+  match tok.splitOn ":" with
+  | [i, p, k] =>
+    match i.toNat?, parseOptNat p, parseNatList k with
+    | some i, some p, some k => some ⟨i, p, k⟩
+    | _, _, _ => none
+  | _ => none
+
+def parsePair (tok : String) : Option (Nat × Nat) :=
+  match tok.splitOn "-" with
+  | [a, b] =>
+    match a.toNat?, b.toNat? with
+    | some a, some b => some (a, b)
+    | _, _ => none
+  | _ => none
+
+def showTNode (n : TNode) : String := s!"{n.id}:{showOpt n.parent}:{showNats n.children}"
+
+def handle (args : List String) : String :=
+  match args with
+  | "splitting" :: toks =>
+    match toks.mapM parseStep with
+    | some steps => " ".intercalate ((exponentiateSplitting steps).map toString)
+    | none => "bad-op"
+  | ["swap", d] =>
+    match d.toNat? with
+    | none => "bad-op"
+    | some d =>
+      match swapGate? d with
+      | none => "error"
+      | some M => s!"{M.length};" ++ " ".intercalate ((onesOf M).map fun (i, j) => s!"{i},{j}")
+  | ["twosite", o, p, c, pp, kp, kc, op, oc] =>
+    match p.toNat?, c.toNat?, parseOptNat pp, parseNatList kp, parseNatList kc, op.toNat?, oc.toNat? with
+    | some p, some c, some pp, some kp, some kc, some op, some oc =>
+      let P := mkNode p pp kp op
+      let C := mkNode c (some p) kc oc
+      let r := if o = "p" then some (twoSite p P c C) else if o = "c" then some (twoSite c C p P) else none
+      match r with
+      | none => "bad-op"
+      | some none => "error"
+      | some (some r) => showResult r
+    | _, _, _, _, _, _, _ => "bad-op"
+  | "seq" :: rest =>
+    let treeToks := rest.takeWhile (· ≠ "/")
+    let pairToks := (rest.dropWhile (· ≠ "/")).drop 1
+    if ¬ rest.contains "/" then "bad-op" else
+    match treeToks.mapM parseTNode, pairToks.mapM parsePair with
+    | some t, some ps =>
+      match applyPairs t ps with
+      | some t' => " ".intercalate (t'.map showTNode)
+      | none => "error"
+    | _, _ => "bad-op"
+  | _ => "bad-op"
+
 end Ptn.C08
